@@ -435,6 +435,7 @@ func (m *Model) renderTarget(t *Target) string {
 	}
 	fmt.Fprintf(&b, "%svf.point(%s, \"mid\")\n", indent, quote(lbl))
 	fmt.Fprintf(&b, "%svf.write(%s, vf.digest(%s, %d, ins, srcs, deps))\n", indent, quote(m.OutPath(id)), quote(lbl), t.Salt)
+	fmt.Fprintf(&b, "%svf.wipe_if(%s)\n", indent, quote(t.Name()))
 	fmt.Fprintf(&b, "%svf.fail_if(%s)\n", indent, quote(t.Name()))
 	if t.Gen {
 		fmt.Fprintf(&b, "%svf.write(%s, vf.digest(\"gen\", %s, %d, ins, srcs, deps))\n", indent, quote(m.GenPath(id)), quote(lbl), t.Salt)
